@@ -6,6 +6,18 @@ BASELINE = json.load(open('/root/.vp/BASELINE.json'))['cmd'] if os.path.exists('
 
 # id -> (category, technique, text, note)
 CHECKS = {
+ "C01": ("exploration",
+   "bounded-exhaustive enumeration of (current, desired) schema pairs executed on a real SQLite engine through the schema-apply flow, judged by re-diff and by an independent engine-catalogue comparison",
+   "All ordered pairs of schema states built from <=1 feature (quick; plus 2-feature states against their sub-states) or <=2 features (thorough, ~460k pairs) out of 38 elementary SQLite features: the current state is created by our own DDL (two spellings), the desired one is HCL from our own writer; the real inspect/diff/plan/apply runs in a transaction; the second diff must be empty, no statement may be rejected, and the engine catalogue read by our own pragma dump must equal that of the desired schema created directly.",
+   "SQLite only (no MySQL/PostgreSQL server in the sandbox); the feature catalogue bounds the schemas; the CLI slice is covered by the CLI-driven checks."),
+ "C03": ("exploration",
+   "bounded-exhaustive enumeration of database states on a real SQLite engine; both exports are re-materialised on fresh engines and compared by atlas' differ and by an independent catalogue dump",
+   "Every engine-valid state with <=2 (thorough <=3) features x 2 DDL spellings is created on a real engine; the HCL export is evaluated, diffed both ways and applied to an empty engine; the SQL export (dump-mode plan, default formatter, read back by the SQLite scanner) is executed on an empty engine and diffed both ways; both recreated catalogues must equal the original; two inspections must produce identical bytes.",
+   "SQLite only; comparison normalises auto-index names, unique-index origin, column order."),
+ "C05": ("exploration",
+   "bounded-exhaustive enumeration of (populated current, desired) pairs executed on a real SQLite engine; rows read before/after by an independent connection",
+   "The C01 pair space with the current database populated (3 rows per table, two NULL variants): after the real apply every row of the changed table is present and every surviving same-typed column holds the same value (NULL back-filled by a new NOT NULL DEFAULT excepted), untouched tables are byte-identical; a plan may fail only when a reference rule says the desired schema cannot hold the data.",
+   "SQLite only; value conversion on type changes is not judged."),
  "C06": ("model_checking",
    "explicit-state BFS over directory-writer histories with canonical-state dedup (invariant: Validate==nil) plus exhaustive single-edit tamper neighbourhood of every small reached state, judged by a reference materiality model",
    "BFS to depth 3 (thorough 4) over the real writers (WritePlan x 6 formatters, WriteCheckpoint, CopyFiles; MemDir and LocalDir) checks that every reachable directory validates; for every small reached state and 8 hand-built ones (sum-ignored files, awkward names) every single edit - each byte of each file and of atlas.sum substituted/deleted/inserted, file add/remove/rename/swap/move-tail, sum line operations - is applied and the real Validate must fail with a checksum error exactly when the reference model says the edit is material.",
@@ -26,6 +38,10 @@ CHECKS = {
    "exhaustive enumeration of (file, progress, edit) histories executed on the real migrate.Executor, judged by the prefix-equality rule",
    "All files of n<=5 statements x every partial progress k (revision produced by a real failing run) x every single edit (thorough: every pair of edits for n<=4) x 2 directory layouts are re-hashed and re-run on the real Executor: a changed applied prefix must give HistoryChangedError, zero executed statements, untouched history and no panic; a changed tail must resume with exactly the new tail and leave the version done for a following Pending.",
    "Recording driver/store in process; timestamps and operator version excluded from 'untouched'."),
+ "C17": ("exploration",
+   "bounded-exhaustive enumeration of plans; reversible ones are executed up and down on a real SQLite engine and the catalogue compared; down files of all formatters compared with the reverse statements",
+   "The C01 pair space x 2 indent settings: Reversible must hold exactly when every schema-changing statement has a reverse, a table rebuild is never reversible, the down part written by each of the 5 third-party formatters equals the reverse statements in reverse change order (per changeset for Liquibase), and for every reversible plan up followed by down on the real engine restores the catalogue and leaves no atlas diff in either direction.",
+   "Engine execution is SQLite only; MySQL/PostgreSQL plans are covered for the flag and down-file parts by the planner-level checks."),
 }
 NOT_APPLICABLE = {}
 
